@@ -22,10 +22,26 @@ def register(op):
         def li():
             l, ext = c.loop_index
             return [l, sorted(ext)]
-        res = [ckey(c.canonical_form), c.rotations, [str(x) for x in c.sequence], list(c.structure), c.size,
-               attempt(lambda: c.kernel_string), attempt(lambda: c.pair_table), attempt(li),
-               attempt(lambda: c.is_connected), attempt(lambda: list(c.exterior_domains)),
-               attempt(lambda: list(c.enclosed_domains))]
+        def observe():
+            return [ckey(c.canonical_form), c.rotations, [str(x) for x in c.sequence], list(c.structure), c.size,
+                    attempt(lambda: c.kernel_string), attempt(lambda: c.pair_table), attempt(li),
+                    attempt(lambda: c.is_connected), attempt(lambda: list(c.exterior_domains)),
+                    attempt(lambda: list(c.enclosed_domains))]
+        res = observe()
+        # views handed out must not share structure with the object: destroy them, observe again
+        import copy
+        snap = copy.deepcopy(res)
+        for v in (c.sequence, c.structure, attempt(lambda: c.pair_table), attempt(lambda: c.loop_index[0]),
+                  attempt(lambda: c.lol_sequence), attempt(lambda: c.exterior_domains), attempt(lambda: c.enclosed_domains)):
+            if isinstance(v, list):
+                for x in v:
+                    if isinstance(x, list):
+                        x.clear(); x.append("?")
+                v.clear(); v.append("?")
+        again = observe()
+        # exterior/enclosed lists are cached attributes of the legacy object (returned as such by design): compare the rest
+        if again[:9] != snap[:9]:
+            raise RuntimeError("a view handed out by the legacy complex aliases its state")
         dep.clear_memory()
         return res
 
